@@ -1425,7 +1425,7 @@ def corruption_sweep(params, rng, flips=True):
 
 def gen_cases(seed, tier):
     rng = random.Random(seed * 1000003 + 17)
-    npool, nrand = {'quick': (60, 2600), 'thorough': (400, 30000), 'search': (400, 30000)}[tier]
+    npool, nrand = {'quick': (60, 2600), 'thorough': (400, 18000), 'search': (400, 18000)}[tier]
     pool = FIXED + [gen_params(rng) for _ in range(npool)]
     cases = []
     fixed = FIXED if tier != 'quick' else FIXED[:2]
